@@ -16,7 +16,7 @@ PROPS = {
                      "fields `solution`/`objective` are private and only written in src/problems/individual.rs (scan)"],
     ),
     "C09": dict(
-        level="proof",
+        level="other",
         explanation=("Hoare-triple harnesses on the real SingleObjective/MultiObjective, discharged by CBMC over full-domain "
                      "symbolic f64 inputs (all bit patterns). SingleObjective harnesses are loop-free (complete); "
                      "MultiObjective harnesses are complete per vector length (lengths listed as bounds)."),
@@ -27,9 +27,25 @@ PROPS = {
     ),
 }
 
+PROPS["C04"] = dict(
+    level="other",
+    explanation=("Verus: every method of the real `Populations` (extracted verbatim each run) against view() = Seq of populations, "
+                 "whole-view postconditions; lemma: n rotations of the top n restore the order (unbounded). Kani: the same "
+                 "contracts as Hoare triples at concrete heights (listed) with symbolic tags/depths against real std (checks the "
+                 "assumed rotate_right / range-index specs and yields replayable counterexamples)."),
+    verus=[dict(name="populations", template="contracts/C04/populations.vrs",
+                expect=["Populations<P>::rotate", "Populations<P>::try_peek", "Populations<P>::try_pop", "Populations<P>::pop",
+                        "Populations<P>::push", "Populations<P>::current_mut", "template::lemma_n_rotations_restore"])],
+    kani=[dict(files=["contracts/C04/c04.rs"])],
+    min_obligations={"quick": 24, "thorough": 26},
+    uncovered=["RotatePopulations::execute guard (State-based; see C03/C12 glue)"],
+    assumptions=["slice::rotate_right(k) moves the last k elements to the front (assumed in Verus, checked by the Kani triples at heights <= 4)",
+                 "Vec range IndexMut == as_mut_slice()[range] (closed-list rewrite)"],
+)
+
 NOT_YET = "not claimed yet in this commit: unit under construction (see DESIGN.md §4 for the planned contracts)"
 NOT_APPLICABLE = {
-    "C01": NOT_YET, "C02": NOT_YET, "C03": NOT_YET, "C04": NOT_YET, "C06": NOT_YET, "C07": NOT_YET,
+    "C01": NOT_YET, "C02": NOT_YET, "C03": NOT_YET, "C06": NOT_YET, "C07": NOT_YET,
     "C10": NOT_YET, "C11": NOT_YET, "C12": NOT_YET, "C13": NOT_YET, "C14": NOT_YET, "C15": NOT_YET, "C17": NOT_YET,
     "C08": "schedule/thread independence and run-to-run determinism: Kani has no threads, Verus would need its own permission types inside rayon; determinism of two runs is a 2-safety property with no per-call contract; the one contract-shaped clause (optimize_with keeps a supplied generator) sits behind State + eyre, which neither verifier reaches (DESIGN.md §2 facts 6, 7, 18; §6)",
     "C16": "whole-run property of 21 template compositions of dyn components over State; no function-level contract decides it, and composing per-component stack-effect contracts needs an interpreter of the template tree, i.e. a model (DESIGN.md §6)",
@@ -49,8 +65,17 @@ MANIFEST_TEXT = {
         note=("Trusted: mirror of the Problem trait (associated types only), vstd specs of Option/Clone. The clause about every "
               "step of every shipped heuristic is NOT decided (whole runs); listed under uncovered_clauses in the evidence."),
     ),
+    "C04": dict(
+        category="other",
+        technique="Verus contracts on the real Populations methods over a Seq view + Kani Hoare triples at concrete heights",
+        text=("All 13 Populations methods are extracted verbatim and proved by Verus against whole-view Seq postconditions for all "
+              "stack heights and contents (unbounded), plus the lemma that n rotations of the top n restore the order. Because the "
+              "Verus proof of rotate rests on an assumed spec of slice::rotate_right, the same contracts are also discharged "
+              "bit-precisely by Kani at heights <= 4 (bounded, listed) on the real std code; hence level 'other', not 'proof'."),
+        note="Trusted: vstd Vec/Option specs, assumed rotate_right spec, closed-list rewrite vec[a..b] -> vec.as_mut_slice()[a..b]; Kani part bounded by height.",
+    ),
     "C09": dict(
-        category="proof",
+        category="other",
         technique="Kani/CBMC Hoare triples over full-domain symbolic f64 on the real SingleObjective/MultiObjective",
         text=("Construction, total order, min/max/sort and operator closure of SingleObjective are decided for all 2^64 bit patterns "
               "per argument by loop-free harnesses (complete). MultiObjective construction and Pareto-order laws are decided for "
